@@ -136,7 +136,8 @@ def namespace_history(draw, n, max_extra=3):
     """How the namespace the tree will use comes about.
 
     {"order": permutation of range(n+extra) giving the accession order of taxon indices (indices >= n are extra,
-      unused taxa), "removed": extra indices removed after creation, "sort": None|"fwd"|"rev"|"reverse"}"""
+      unused taxa), "removed": extra indices removed after creation, "sort": None|"fwd"|"rev"|"reverse",
+      "readd": optional indices whose bit is queried, which are removed and then added back as the same object}"""
     extra = draw(st.integers(0, max_extra))
     order = list(draw(st.permutations(list(range(n + extra)))))
     removed = []
@@ -147,7 +148,14 @@ def namespace_history(draw, n, max_extra=3):
             order.remove(n)
             order.insert(0, n)
     sort = draw(st.sampled_from([None, None, "fwd", "rev", "reverse"]))
-    return {"extra": extra, "order": order, "removed": removed, "sort": sort}
+    hist = {"extra": extra, "order": order, "removed": removed, "sort": sort}
+    if draw(st.integers(0, 3)) == 0:
+        # taxa whose bit is looked up, that are then removed from the namespace and later added back (the SAME Taxon
+        # object): they are accessioned again and own a new bit
+        alive = [i for i in order if i not in removed]
+        if alive:
+            hist["readd"] = list(draw(st.lists(st.sampled_from(alive), min_size=1, max_size=2, unique=True)))
+    return hist
 
 
 def plain_history(n):
@@ -177,6 +185,14 @@ def build_namespace(hist, labels=None, **kw):
         ns.remove_taxon(taxa[idx])
         del taxa[idx]
         del bits[idx]
+    acc = len(hist["order"])
+    for idx in hist.get("readd", ()):
+        ns.taxon_bitmask(taxa[idx])
+        ns.remove_taxon(taxa[idx])
+    for idx in hist.get("readd", ()):
+        ns.add_taxon(taxa[idx])
+        bits[idx] = acc
+        acc += 1
     if hist["sort"] == "fwd":
         ns.sort()
     elif hist["sort"] == "rev":
